@@ -1756,7 +1756,7 @@ def zeros(rng):
                         if not Gen.json_ok(lit):
                             lit = "0"
                         v = dn(lit)
-                    if rng.random() < 0.78:
+                    if rng.random() < (0.82 if True else 0):
                         continue
                     fa = F("a", wrap(P(kind)), copy.deepcopy(o))
                     fb = F("b", P("int"), O(opt=True))
@@ -1782,8 +1782,6 @@ def scribbles(rng):
     """the caller writes into a map[string]any field of a struct it got back; later calls that
     leave a struct / map value out must not see those entries"""
     cases = []
-    if not EMPTY_MAP_PRIVATE[0]:
-        return cases
     i = P("int")
     for k in range(12):
         a, b = fresh("a"), fresh("b")
@@ -2199,7 +2197,7 @@ class C08(Property):
         cases = crosskind(rng, 40 if not big else 400)
         cases += scribbles(rng)
         cases += sequences(rng, 120 if not big else 1200)
-        cases += parse_cases(rng, 250 if not big else 3000)
+        cases += parse_cases(rng, 200 if not big else 3000)
         cases += self_validating(rng)
         if tier in ("quick", "thorough"):
             cases += systematic(rng)
@@ -2209,7 +2207,7 @@ class C08(Property):
             cases += slice_defaults(rng)
             cases += depchains(rng)
             cases += ctypes(rng)
-        cases += boundaries(rng, 500 if not big else 6000)
+        cases += boundaries(rng, 380 if not big else 6000)
         cases += frontends(rng, 150 if not big else 1500)
         cases += broken_texts()
         g = Gen(rng, "thorough" if tier == "thorough" else "quick")
